@@ -151,15 +151,22 @@ def r14_2_3(ck: Check) -> None:
     if others:
         problems.append("the input list is also changed by %s" % "; ".join(show(e.term)[:80] for e in others))
     scope_nodes = [summ.fi.node] + [f.node for f in ck.repo.all_functions() if ck.walker.transparent(f.qualname) and f.module is summ.fi.module]
-    augs = [(b, n) for root in scope_nodes for b in ast.walk(root) for fld in ("body", "orelse", "finalbody") for n in (getattr(b, fld, None) or [])
-            if isinstance(b, ast.AST) and isinstance(getattr(b, fld, None), list) and isinstance(n, ast.AugAssign)
-            and isinstance(n.target, ast.Name) and n.target.id == acc_name]
+    augs = []
+    for root in scope_nodes:
+        for b in ast.walk(root):
+            for fld in ("body", "orelse", "finalbody"):
+                lst = getattr(b, fld, None)
+                if not isinstance(lst, list):
+                    continue
+                for n in lst:
+                    if isinstance(n, ast.AugAssign) and isinstance(n.target, ast.Name) and n.target.id == acc_name:
+                        augs.append((b, n))
     if len(augs) != 1 or not isinstance(augs[0][1].op, ast.Add):
         problems.append("%d updates of %s (one `+=` expected)" % (len(augs), acc_name))
     else:
         parent = augs[0][0]
-        sibs = [x for fld in ("body", "orelse", "finalbody") for x in (getattr(parent, fld, None) or []) if isinstance(getattr(parent, fld, None), list)
-                and augs[0][1] in getattr(parent, fld)]
+        sibs = [x for fld in ("body", "orelse", "finalbody") if isinstance(getattr(parent, fld, None), list) and augs[0][1] in getattr(parent, fld)
+                for x in getattr(parent, fld)]
         adds_input = [x for x in sibs if isinstance(x, ast.Expr) and isinstance(x.value, ast.Call) and isinstance(x.value.func, ast.Attribute)
                       and x.value.func.attr == "append" and x.value.args and isinstance(x.value.args[0], ast.Call)
                       and (dotted(x.value.args[0].func) or "").split(".")[-1] == "Input"]
